@@ -151,15 +151,53 @@ impl Prop for C04 {
     }
     Ok(())
     };
+    // (f) columns=false without ReplaceSource
+    let check_lines = |mapl: &Option<rspack_sources::SourceMap>| -> Result<(), String> {
+      let al = attr_from_map(mapl.as_ref(), &text, false)?;
+      let mut first: BTreeMap<u32, Option<(String, u32)>> = BTreeMap::new();
+      for i in 0..text.len() {
+        let e = first.entry(pos[i].0).or_insert(None);
+        if e.is_none() {
+          if let Prov::Orig { file, line, .. } = &pv[i] {
+            *e = Some((file.clone(), *line));
+          }
+        }
+      }
+      for i in 0..text.len() {
+        let want = first[&pos[i].0].clone();
+        let got = al[i].clone().map(|a| (a.0, a.2));
+        if want != got {
+          return Err(format!(
+            "(f) columns=false: output line {} of {text:?} resolves to {got:?}, the first original text on it is {want:?}; mappings={:?}",
+            pos[i].0,
+            mapl.as_ref().map(|m| m.mappings().to_string())
+          ));
+        }
+      }
+      Ok(())
+    };
+    let lines_claimed = !spec.has_replace();
     let map = guard(|| build(spec).map(&opts(true, false))).map_err(|p| format!("map(): {p}"))?;
     check_map(&map)?;
-    // the same statements hold for whatever path produced the map: one object asked twice (the second
-    // answer is assembled from the caches of its CachedSources)
+    if lines_claimed {
+      let mapl = guard(|| build(spec).map(&opts(false, false))).map_err(|p| format!("map(columns=false): {p}"))?;
+      check_lines(&mapl)?;
+    }
+    // the same statements hold for whatever path produced the map: one object asked repeatedly, with both column
+    // settings in either order (the later answers are assembled from the caches of its CachedSources, which must
+    // keep the two settings apart)
     if spec.has_cached() {
-      let obj = build(spec);
-      for round in ["first", "second"] {
-        let m = guard(|| obj.map(&opts(true, false))).map_err(|p| format!("map() ({round} call on one object): {p}"))?;
-        check_map(&m).map_err(|e| format!("{round} map() on one object: {e}"))?;
+      for order in [[true, true, false, true, false], [false, true, false, false, true]] {
+        let obj = build(spec);
+        for (k, columns) in order.into_iter().enumerate() {
+          if !columns && !lines_claimed {
+            continue;
+          }
+          let m = guard(|| obj.map(&opts(columns, false)))
+            .map_err(|p| format!("map(columns={columns}) (call {k} of {order:?} on one object): {p}"))?;
+          if columns { check_map(&m) } else { check_lines(&m) }
+            .map_err(|e| format!("call {k} of the map(columns) sequence {order:?} on one object: {e}"))?;
+        }
       }
     }
     let mut nt = false;
@@ -182,31 +220,6 @@ impl Prop for C04 {
         }
       }
       nt |= line_kinds.values().any(|k| k.len() >= 2 && k.iter().any(|x| x != "<raw>"));
-    }
-    // (f) columns=false without ReplaceSource
-    if !spec.has_replace() {
-      let mapl = guard(|| build(spec).map(&opts(false, false))).map_err(|p| format!("map(columns=false): {p}"))?;
-      let al = attr_from_map(mapl.as_ref(), &text, false)?;
-      let mut first: BTreeMap<u32, Option<(String, u32)>> = BTreeMap::new();
-      for i in 0..text.len() {
-        let e = first.entry(pos[i].0).or_insert(None);
-        if e.is_none() {
-          if let Prov::Orig { file, line, .. } = &pv[i] {
-            *e = Some((file.clone(), *line));
-          }
-        }
-      }
-      for i in 0..text.len() {
-        let want = first[&pos[i].0].clone();
-        let got = al[i].clone().map(|a| (a.0, a.2));
-        if want != got {
-          return Err(format!(
-            "(f) columns=false: output line {} of {text:?} resolves to {got:?}, the first original text on it is {want:?}; mappings={:?}",
-            pos[i].0,
-            mapl.as_ref().map(|m| m.mappings().to_string())
-          ));
-        }
-      }
     }
     let mut info = CaseInfo::nt(nt);
     tree_classes(spec, &mut info);
